@@ -62,6 +62,12 @@ def check_priorities(rc: RuleCtx, rule: str, m: rm.LoopModel, oname: str, tag: s
                             why = "the scorer is not applied at the split index"
                         elif comp != want_comp:
                             why = f"the {'left' if want_comp == 0 else 'right'} child is stored with the other child's score"
+                        elif "distance_points" not in amap and "distance_points" in rc.func(callee).signature.positional:
+                            why = ("the scorer is called without the configured distance function and falls back to its default: the ordering score is not the "
+                                   "stated one when another distance is selected")
+                        elif "distance_points" in amap and "distance_points" in m.env_pre and not amap["distance_points"].equals(ev.to_rat(m.env_pre["distance_points"])):
+                            why = ("the scorer measures with " + _short(amap["distance_points"], 60) + " instead of the configured distance function "
+                                   "(the one the split point is chosen with): the ordering score is not the stated one for distance=perpendicular")
                         else:
                             extra = [n for n in names if n not in ("pt", "index", "distance_points")]
                             if extra:
